@@ -235,6 +235,54 @@ def lookalike_histories(log):
     return out
 
 
+def disorder_log():
+    """repeated and out-of-order P1 times within a type (single-type aligned vs unaligned reads differ)"""
+    L = [('POSE', 12), ('POSE_AUX', 11), ('POSE', 11), ('EVENT_NOTIFICATION', None), ('POSE', 11), ('GNSS_INFO', 12),
+         ('POSE_AUX', 11), ('POSE', 13), ('POSE', 12), ('POSE_AUX', 12), ('GNSS_INFO', 11), ('EVENT_NOTIFICATION', None), ('POSE', None)]
+    return [{'t': t, 'p1': p, 'src': 0, 'sys': i} for i, (t, p) in enumerate(L)]
+
+
+def times_nondecreasing(log):
+    ts = [m['p1'] for m in log if m['p1'] is not None]
+    return all(a <= b for a, b in zip(ts, ts[1:]))
+
+
+def checklist_histories(log):
+    """shapes from the builders' harness checklist: a narrowly filtered read followed by a read whose limit must not
+    depend on the reader's stale filtered index; maxima 0 and |N| >= number of matching messages with require_p1_time /
+    require_system_time; numpy reads that find messages followed by numpy reads of the same types that find none (and
+    back); aligned reads after other types were cached (the cached entries of the other types must stay untouched);
+    single-type aligned vs unaligned reads"""
+    t0 = int(log_t0(log)); n = len(log)
+    out = []
+    narrow = [call(types=['EVENT_NOTIFICATION'], tr=[1, 2, False]), call(types=['POSE'], src=[1]),
+              call(types=['GNSS_INFO'], tr=[t0 + 1, t0 + 2, True], max=1), call(types=['POSE_AUX'], tr=[0, 1, False], num=True)]
+    wide = [call(types=None, max=m) for m in (2, -2, 0, n + 5, -(n + 5), n, -n)] + \
+           [call(types=['POSE', 'POSE_AUX', 'EVENT_NOTIFICATION'], max=m, p1=True) for m in (0, 2, -2, n + 5, -(n + 5))] + \
+           [call(types=['POSE', 'EVENT_NOTIFICATION'], max=m, sys=True) for m in (0, 1, -1, n + 5, -(n + 5))] + \
+           [call(types=['POSE', 'POSE_AUX'], max=m, order=True) for m in (0, 3, -3, -(n + 5))]
+    for a in narrow:
+        for b in wide:
+            out += [[a, b], [a, b, a]]
+    nothing = [dict(tr=[500, 501, False]), dict(src=[9]), dict(tr=[t0 + 500, None, True])]
+    for T in (['POSE'], ['POSE', 'GNSS_INFO'], None):
+        for keep in (False, True):
+            full = call(types=T, num=True, keep=keep)
+            for e in nothing:
+                empty = call(types=T, num=True, keep=keep, **e)
+                out += [[full, empty], [empty, full], [full, empty, full], [full, empty, call(types=T)]]
+    for mode in (1, 2):
+        for other in (['GNSS_INFO'], ['POSE'], ['GNSS_INFO', 'EVENT_NOTIFICATION']):
+            for al in (call(types=['POSE', 'POSE_AUX'], align=mode, keep=True), call(types=['POSE', 'POSE_AUX'], align=mode, num=True, keep=True),
+                       call(types=['POSE_AUX'], align=mode), call(types=['POSE'], align=mode, atypes=['POSE'])):
+                o = call(types=other)
+                out += [[o, al, o], [o, al], [al, o, al]]
+        for T in (['POSE'], ['POSE_AUX'], ['GNSS_INFO']):
+            out += [[call(types=T), call(types=T, align=mode)], [call(types=T, align=mode), call(types=T)],
+                    [call(types=T, align=mode, num=True, keep=True), call(types=T, num=True, keep=True)]]
+    return out
+
+
 def gen_aba(r, log):
     """random member of the A ; partial invalidation ; A family"""
     a = gen_call(r, log)
